@@ -472,4 +472,161 @@ theorem groupByLoop_nodup [DecidableEq κ] (g : α → κ) (xs : List α) (m : L
   | nil => simpa using h
   | cons x t ih => exact ih _ (nodup_keys_mset _ _ _ h)
 
+theorem Impl.wrap64_id (x : Int) (h1 : -9223372036854775808 ≤ x) (h2 : x ≤ 9223372036854775807) : Impl.wrap64 x = x := by
+  unfold Impl.wrap64; omega
+
+theorem rangeLoop_spec (hi hop : Int) (hhop : 0 < hop) (hb : hi + hop ≤ 9223372036854775807)
+    (fuel : Nat) (v : Int) (acc : List Int) (n : Nat)
+    (hv : -9223372036854775808 ≤ v) (hf : (hi - v).toNat + 1 ≤ fuel) (hn : (hi - v).toNat ≤ n) :
+    Impl.rangeLoop hi hop fuel v acc
+      = .ok (acc ++ ((List.range n).map (fun (i : Nat) => v + (i : Int) * hop)).filter (fun x => x < hi)) := by
+  induction fuel generalizing v acc n with
+  | zero => omega
+  | succ k ih =>
+    by_cases hlt : v < hi
+    · have hw : Impl.wrap64 (v + hop) = v + hop := Impl.wrap64_id _ (by omega) (by omega)
+      cases n with
+      | zero => omega
+      | succ n' =>
+        have ih' := ih (v + hop) (acc ++ [v]) n' (by omega) (by omega) (by omega)
+        simp only [Impl.rangeLoop, hlt, if_true, hw, ih']
+        rw [List.range_succ_eq_map]
+        simp only [List.map_cons, List.map_map, List.filter_cons]
+        have h0 : v + ((0 : Nat) : Int) * hop = v := by simp
+        rw [h0]
+        simp only [hlt, decide_true, if_true]
+        have hfun : ((fun (i : Nat) => v + (i : Int) * hop) ∘ Nat.succ) = (fun (i : Nat) => v + hop + (i : Int) * hop) := by
+          funext i
+          simp only [Function.comp, Nat.succ_eq_add_one, Int.natCast_add, Int.add_mul]
+          omega
+        rw [hfun]
+        simp
+    · have hall : ((List.range n).map (fun (i : Nat) => v + (i : Int) * hop)).filter (fun x => x < hi) = [] := by
+        rw [List.filter_eq_nil_iff]
+        intro x hx
+        simp only [List.mem_map, List.mem_range] at hx
+        obtain ⟨i, _, rfl⟩ := hx
+        have : 0 ≤ (i : Int) * hop := Int.mul_nonneg (by omega) (by omega)
+        simp; omega
+      simp [Impl.rangeLoop, hlt, hall]
+
+theorem rangeFrom_spec (lo hi hop : Int) (hhop : 0 < hop) (hb : hi + hop ≤ 9223372036854775807)
+    (hlo : -9223372036854775808 ≤ lo) :
+    Impl.rangeFrom lo hi hop
+      = .ok (if lo ≥ hi then [] else ((List.range (hi - lo).toNat).map (fun (i : Nat) => lo + (i : Int) * hop)).filter (fun x => x < hi)) := by
+  unfold Impl.rangeFrom
+  by_cases h : lo ≥ hi
+  · simp [h]
+  · simp only [h, if_false]
+    have := rangeLoop_spec hi hop hhop hb ((hi - lo).toNat + 1) lo [] (hi - lo).toNat hlo (by omega) (by omega)
+    simpa using this
+
+theorem chunks_small (k : Nat) (fuel : Nat) (xs : List α) (h0 : xs ≠ []) (hk : xs.length ≤ k) (hf : xs.length ≤ fuel) :
+    Spec.chunks k fuel xs = [xs] := by
+  cases fuel with
+  | zero => cases xs <;> simp_all
+  | succ f =>
+    have h1 : xs.isEmpty = false := by cases xs <;> simp_all
+    have h2 : xs.take k = xs := List.take_of_length_le hk
+    have h3 : xs.drop k = [] := List.drop_eq_nil_of_le hk
+    simp only [Spec.chunks, h1, Bool.false_eq_true, if_false, h2, h3]
+    cases f <;> simp [Spec.chunks]
+
+theorem splitLoop_spec (k : Nat) (hk : 1 ≤ k) (n : Nat) (rest' : List α) :
+    ∀ (v : α) (i : Nat) (result : List (List α)) (cur : List α) (fuel : Nat),
+      i + 1 + rest'.length = n → cur.length ≤ k → (cur ++ v :: rest').length ≤ fuel →
+      Impl.splitLoop (k : Int) n (v :: rest') i result cur = result ++ Spec.chunks k fuel (cur ++ v :: rest') := by
+  induction rest' with
+  | nil =>
+    intro v i result cur fuel hi hc hf
+    have hlast : i + 1 ≥ n := by simp at hi; omega
+    by_cases hlt : cur.length < k
+    · have hlt' : ((cur.length : Nat) : Int) < (k : Int) := by omega
+      have := chunks_small k fuel (cur ++ [v]) (by simp) (by simp; omega) hf
+      simp [Impl.splitLoop, hlt', hlast, this]
+    · have heq : cur.length = k := by omega
+      have hlt' : ¬ (((cur.length : Nat) : Int) < (k : Int)) := by omega
+      cases fuel with
+      | zero => simp at hf
+      | succ f =>
+        have h1 : (cur ++ [v]).isEmpty = false := by simp
+        have h2 : (cur ++ [v]).take k = cur := by rw [← heq]; simp
+        have h3 : (cur ++ [v]).drop k = [v] := by rw [← heq]; simp
+        have h4 := chunks_small k f [v] (by simp) (by simpa using hk) (by simp at hf ⊢; omega)
+        simp [Impl.splitLoop, hlt', hlast, Spec.chunks, h1, h2, h3, h4]
+  | cons w rest'' ih =>
+    intro v i result cur fuel hi hc hf
+    have hnl : ¬ (i + 1 ≥ n) := by simp at hi; omega
+    by_cases hlt : cur.length < k
+    · have hlt' : ((cur.length : Nat) : Int) < (k : Int) := by omega
+      have ih' := ih w (i + 1) result (cur ++ [v]) fuel (by simp at hi ⊢; omega) (by simp; omega) (by simpa using hf)
+      rw [Impl.splitLoop]
+      simp only [hlt', if_true, hnl, if_false]
+      rw [ih']
+      simp
+    · have heq : cur.length = k := by omega
+      have hlt' : ¬ (((cur.length : Nat) : Int) < (k : Int)) := by omega
+      cases fuel with
+      | zero => simp at hf
+      | succ f =>
+        have h1 : (cur ++ v :: w :: rest'').isEmpty = false := by simp
+        have h2 : (cur ++ v :: w :: rest'').take k = cur := by rw [← heq]; simp
+        have h3 : (cur ++ v :: w :: rest'').drop k = v :: w :: rest'' := by rw [← heq]; simp
+        have ih' := ih w (i + 1) (result ++ [cur]) [v] f (by simp at hi ⊢; omega) (by simpa using hk)
+          (by simp at hf ⊢; omega)
+        rw [Impl.splitLoop]
+        simp only [hlt', if_false, hnl]
+        rw [ih']
+        simp [Spec.chunks, h1, h2, h3]
+
+theorem nodup_of_nodup_keys (m : List (κ × ν)) (h : (m.map (·.1)).Nodup) : m.Nodup := by
+  induction m with
+  | nil => simp
+  | cons p t ih =>
+    simp only [List.map_cons, List.nodup_cons] at h ⊢
+    refine ⟨fun hp => h.1 (List.mem_map_of_mem hp), ih h.2⟩
+
+/-- pigeonhole: a duplicate-free list contained in a list that is not longer covers it -/
+theorem subset_of_nodup_subset_length [DecidableEq α] (a b : List α) (hn : a.Nodup) (hs : ∀ x ∈ a, x ∈ b)
+    (hl : b.length ≤ a.length) : ∀ y ∈ b, y ∈ a := by
+  induction a generalizing b with
+  | nil =>
+    have : b = [] := List.eq_nil_of_length_eq_zero (by simpa using hl)
+    simp [this]
+  | cons x t ih =>
+    have hx : x ∈ b := hs x (by simp)
+    have hn' := List.nodup_cons.mp hn
+    have hsub : ∀ z ∈ t, z ∈ b.erase x := by
+      intro z hz
+      have hne : z ≠ x := fun e => hn'.1 (e ▸ hz)
+      exact (List.mem_erase_of_ne hne).mpr (hs z (by simp [hz]))
+    have hlen : (b.erase x).length ≤ t.length := by
+      rw [List.length_erase_of_mem hx]; simp at hl; omega
+    have := ih (b.erase x) hn'.2 hsub hlen
+    intro y hy
+    by_cases hyx : y = x
+    · simp [hyx]
+    · exact List.mem_cons_of_mem _ (this y ((List.mem_erase_of_ne hyx).mpr hy))
+
+theorem findPair_eq [DecidableEq κ] [DecidableEq ν] (k : κ) (v : ν) (m : List (κ × ν)) :
+    Impl.findPair k v m = decide ((k, v) ∈ m) := by
+  induction m with
+  | nil => simp [Impl.findPair]
+  | cons p t ih =>
+    obtain ⟨k2, v2⟩ := p
+    by_cases h : k = k2 ∧ v = v2
+    · simp [Impl.findPair, h]
+    · have : ¬ ((k, v) = (k2, v2)) := fun e => h (by simpa using e)
+      simp only [Impl.findPair, h, if_false, ih, List.mem_cons, this, false_or]
+
+theorem isEqualMapLoop_eq [DecidableEq κ] [DecidableEq ν] (b a : List (κ × ν)) :
+    Impl.isEqualMapLoop b a = decide (∀ p ∈ a, p ∈ b) := by
+  induction a with
+  | nil => simp [Impl.isEqualMapLoop]
+  | cons p t ih =>
+    obtain ⟨k, v⟩ := p
+    by_cases h : (k, v) ∈ b
+    · simp [Impl.isEqualMapLoop, findPair_eq, h, ih]
+    · simp [Impl.isEqualMapLoop, findPair_eq, h]
+
 end FpgoVerif.C03
